@@ -52,8 +52,7 @@ def run(tier, seed, scale):
                        "limiter bound: sink entries minus decrements STARTED is a lower bound of forwarded minus decremented, so an excess is real; a limiter "
                        "that is too strict is caught only as a message that is never forwarded (limiter.stuck)",
                        "real-time order rules need global stamps and are skipped in the tsan variant, which instead checks the happens-before edge between the "
-                       "producer's plain payload write and the sink's read and the exclusion of the serial sinks",
-                       "asan variant: class join-key is skipped (UBSan aborts on a harmless null member call in hash_buffer::find_ref_with_key)"]
+                       "producer's plain payload write and the sink's read and the exclusion of the serial sinks"]
     q = tier == "quick"
     tmo = 900 if q else 3000
     phases = [
